@@ -1,4 +1,5 @@
 use std::num::{NonZeroU16, NonZeroU32};
+use std::task::{Context, Poll, Waker};
 use std::{cell::Cell, fmt, future::Future, future::ready, rc::Rc};
 
 use ntex_bytes::{ByteString, Bytes};
@@ -734,6 +735,12 @@ impl fmt::Debug for StreamingPayload {
 
 impl Drop for StreamingPayload {
     fn drop(&mut self) {
+        // publish packet could be encoded already while payload has not been requested yet
+        if let Some(rx) = self.rx.take()
+            && let Poll::Ready(Ok(())) = rx.poll_recv(&mut Context::from_waker(Waker::noop()))
+        {
+            self.inprocess.set(true);
+        }
         if self.inprocess.get() && self.shared.is_streaming() {
             self.shared.streaming_dropped();
         }
